@@ -127,7 +127,7 @@ let check inp obs =
                    ("rep-range", reps_ok s1); ("messages-vs-state", view_ok s0 s1);
                    ("report-applies-to-each", (match o with OReport (d, ps) -> report_ok s0 k d ps s1 | _ -> true));
                    ("limits", lim) ] in
-               if core && (not lim) && guard_unreserve s0 o then incr failing_in_guard else incr failing_outside;
+               if core && (not lim) && guard_unreserve s0 k o then incr failing_in_guard else incr failing_outside;
                Buffer.add_string details (Printf.sprintf "op %d (%s): property fails [%s]; " i optok (String.concat "," parts))
              end;
              if not (limits_ok s1) then tag "over-limit-state";
